@@ -12,6 +12,7 @@ from checks import registry      # noqa
 from simpex import runner        # noqa
 
 pid, src, out = sys.argv[1:4]
+out = os.path.abspath(out)
 scn = json.load(sys.stdin if src == '-' else open(src))
 if 'scenario' in scn:
     scn = scn['scenario']
